@@ -19,7 +19,11 @@ fn run_repl() {
         buffer.clear();
         print!(">>> ");
         io::stdout().flush().unwrap();
-        io::stdin().read_line(&mut buffer).unwrap();
+        // end of input: the session is over
+        if io::stdin().read_line(&mut buffer).unwrap() == 0 {
+            println!();
+            return;
+        }
 
         // TODO: Error handling here
         let ast = parse(&buffer).unwrap();
